@@ -28,6 +28,8 @@ THEOREMS = [
     "C19_generated_good",
     "C19_late_test_differs",
     "C19_source_disabled",
+    "C19_source_parse",
+    "C19_source_update",
 ]
 RULE = (
     "a module loaded through the import hook in four fresh interpreters sharing one __pycache__ (imported with "
@@ -46,6 +48,7 @@ TRUSTED = [
     "harness/extract.py: recognition of the early-return test in wrapped_fn",
     "ASCII-only model of str.lower()",
     "harness/translate_wrap.py (recognisers of the statements of the jaxtyped wrappers, _JaxtypingContext and _get_problem_arg) and the interpreters Model/WrapDsl.lean / Model/BlameDsl.lean (the typechecker passes, the one-parameter checker and message-text statements are primitives)",
+    "harness/translate_config.py (recognisers of the statements of _maybestr2bool / config.update) and the interpreter Model/ConfigDsl.lean (str.lower on ASCII = lowerStr)",
 ]
 
 
